@@ -139,23 +139,20 @@ func (s *VStore) DeleteRange(min, max uint64) error {
 		return errInjected
 	}
 	var removed []*raft.Log
-	for i := min; i <= max; i++ {
-		if l, ok := s.logs[i]; ok {
-			removed = append(removed, l)
+	for _, i := range s.Indexes() {
+		if i >= min && i <= max {
+			removed = append(removed, s.logs[i])
 			delete(s.logs, i)
 		}
-		if i == ^uint64(0) {
-			break
+	}
+	s.lo, s.hi = 0, 0
+	for i := range s.logs {
+		if s.lo == 0 || i < s.lo {
+			s.lo = i
 		}
-	}
-	if min <= s.lo {
-		s.lo = max + 1
-	}
-	if max >= s.hi {
-		s.hi = min - 1
-	}
-	if s.lo > s.hi {
-		s.lo, s.hi = 0, 0
+		if i > s.hi {
+			s.hi = i
+		}
 	}
 	if s.hooks != nil {
 		s.hooks.OnDeleteRange(s.node, min, max, removed)
